@@ -309,6 +309,22 @@ func VerifC17_Upgrade() {
 		got := g.k.GetUpgrade(g.ctx)
 		zz.Assert("C17.upgrade.owner-change-takes-effect", ok && got.Height == up.Height && got.Version == up.Version)
 	}
+	// blocks go by (before and past the plan's height; at the plan's height itself an outdated node stops): the module's
+	// begin / end blockers change no parameter
+	am := NewAppModule(g.k)
+	planned := g.k.GetUpgrade(g.ctx).Height
+	for _, h := range []int64{planned - 1, planned + 1, planned + 2} {
+		if h < 1 {
+			continue
+		}
+		bctx := g.ctx.WithBlockHeight(h)
+		am.BeginBlock(bctx, abci.RequestBeginBlock{Header: abci.Header{Height: h}})
+		am.EndBlock(bctx, abci.RequestEndBlock{Height: h})
+	}
+	later := g.raw()
+	for i := range vParamKeys {
+		zz.Assert("C17.upgrade.blocks-going-by-change-no-parameter", bytes.Equal(after[i], later[i]))
+	}
 	zz.Reach("C17.upgrade")
 }
 
@@ -421,4 +437,42 @@ func VerifC17_DAOFundsAtPlainAccount() {
 		zz.Assert("C17.dao-plain.not-beyond-the-balance", !ok && left.Equal(total))
 	}
 	zz.Reach("C17.dao-plain.end")
+}
+
+
+// VerifC17_DuplicateACLEntry: an access-control list may name a key twice (neither genesis validation nor a gov/acl change
+// refuses that); the owner is then the first entry - the one SetOwner maintains and hand-overs rewrite: the address of the
+// later entry is a stranger to that parameter, before and after a hand-over by the owner.
+func VerifC17_DuplicateACLEntry() {
+	g := vNewGov()
+	key := []string{"auth/MaxMemoCharacters", "gov/daoOwner", "gov/acl"}[zz.Choice("key", 3)]
+	p := g.k.GetParams(g.ctx)
+	acl := p.ACL
+	acl = append(acl, types.ACLPair{Key: key, Addr: g.s}) // a second, later entry for the key names the stranger
+	p.ACL = acl
+	g.k.SetParams(g.ctx, p)
+	owner := vOwnerOf(g, key)
+	who := []sdk.Address{owner, g.s}[zz.Choice("sender", 2)]
+	before := g.raw()
+	var ok, crashed bool
+	switch key {
+	case "auth/MaxMemoCharacters":
+		ok, crashed = vRun(g, types.MsgChangeParam{FromAddress: who, ParamKey: key, ParamVal: g.cdc.MustMarshalJSON(zz.Uint64("newvalue", 1, 1<<40))})
+	case "gov/daoOwner":
+		ok, crashed = vRun(g, types.MsgChangeParam{FromAddress: who, ParamKey: key, ParamVal: g.cdc.MustMarshalJSON(g.s)})
+	default:
+		ok, crashed = vRun(g, types.MsgChangeParam{FromAddress: who, ParamKey: key, ParamVal: g.cdc.MustMarshalJSON(acl)})
+	}
+	after := g.raw()
+	zz.Assert("C17.dup.no-crash", !crashed)
+	if who.Equals(owner) {
+		zz.Assert("C17.dup.first-entry-is-the-owner", ok)
+	} else {
+		same := true
+		for i := range before {
+			same = same && bytes.Equal(before[i], after[i])
+		}
+		zz.Assert("C17.dup.later-entry-grants-nothing", !ok && same)
+	}
+	zz.Reach("C17.dup")
 }
